@@ -290,7 +290,7 @@ def check(run):
 
     # ------------------------------------------------------------------ O15.3
     o = run.ob("O15.3", "side selection and domain-separation labels",
-               "swapped sides or a shared label let a proof for one position/level verify for another", floor=9)
+               "swapped sides or a shared label let a proof for one position/level verify for another", floor=11)
     for (b, rem, div) in ws:
         key = fshort(b.defpath)
         hp = b.calls_to(MT + "hash_pair")
@@ -355,6 +355,12 @@ def check(run):
                         got.append("#%d" % ps[0] if len(ps) == 1 else "?")
                 ok = got == want and ha[0].dst["l"] == 0
         o.check(ok, "%s|layout" % fn, "%s = hash_all([%s])" % (fn, ", ".join(want)), b.span, {"got": got})
+        # and that is the ONLY result: every input is hashed under its label (no shortcut returning the input itself)
+        from . import detectors as DET
+        rdefs = b.defs().get(0, [])
+        uncond = len(ha) == 1 and not DET.extra_guards(prog, b, ha[0].bb, [])
+        o.check(len(rdefs) == 1 and uncond, "%s|always-labelled" % fn, "%s has a single result, the labelled hash, computed unconditionally (domain separation holds for every input length)" % fn, b.span,
+                {"result_definitions": len(rdefs)})
     hb = prog.body(A + "crypto::hash::hash_all")
     if hb is None:
         o.missing("crypto::hash::hash_all")
